@@ -37,6 +37,77 @@ func (a *A) C02() {
 	a.assembledPayload()
 }
 
+// R1 (contract of dumpUnlocked that NextData's drain relies on): an empty result means the pool is empty. The function
+// removes accumulators in a loop and leaves it early only with a non-empty queue: every `delete` on the pool's map sits in
+// a cycle of the control flow graph (one removal per call would report "empty" as soon as the lowest PID holds an emptied
+// accumulator, while other PIDs still hold packets: ErrNoMorePackets would be followed by more data), and a return reached
+// from inside that cycle is guarded by the non-empty test of the queue it returns.
+func (a *A) drainScansWholePool(dump *ssa.Function) {
+	const rule, key = "R1", "dumpUnlocked/empty-result-means-empty-pool"
+	n := 0
+	var bad []string
+	for _, b := range dump.Blocks {
+		for _, in := range b.Instrs {
+			c, ok := in.(ssa.CallInstruction)
+			if !ok || !isBuiltin(c.Common(), "delete") || len(c.Common().Args) == 0 {
+				continue
+			}
+			if _, isPool := a.fieldLoadOf(c.Common().Args[0], "packetPool", "b"); !isPool {
+				continue
+			}
+			n++
+			if !inCycle(b) {
+				bad = append(bad, "the accumulator removed at "+a.ipos(in)+" is the only one examined by the call: an emptied accumulator makes dumpUnlocked report an empty pool although other PIDs still hold packets")
+			}
+		}
+	}
+	// returns inside the scan are guarded by a non-empty test
+	for _, ret := range ssau.Returns(dump) {
+		rb := ret.Block()
+		// a return whose block is reached from a block in a cycle without leaving the loop through its exit condition:
+		// approximated by "its immediate dominator chain contains a cycle block that is not the loop header's exit"
+		for d := rb.Idom(); d != nil; d = d.Idom() {
+			if !inCycle(d) {
+				continue
+			}
+			// d is inside the loop; the edge d -> ... -> rb must be a len()>0 guard or the loop's own exit (range done)
+			guarded := false
+			for _, ci := range ifsOn(dump, func(v ssa.Value) bool { _, _, ok := lenTest(v); return ok }) {
+				_, tWhenEmpty, _ := lenTest(ci.V)
+				if nb, excl := ci.when(!tWhenEmpty); excl && (nb == rb || nb.Dominates(rb)) {
+					guarded = true
+				}
+			}
+			exitsLoop := false
+			if iff := blockIf(d); iff != nil {
+				if _, isNext := iff.Cond.(*ssa.Extract); isNext {
+					exitsLoop = true // range loop: "ok" of the next() tuple
+				}
+				if bo, isB := iff.Cond.(*ssa.BinOp); isB {
+					if _, _, isLen := lenTest(bo); !isLen {
+						exitsLoop = true // index loop condition i < len(keys)
+					}
+				}
+			}
+			if !guarded && !exitsLoop && len(ret.Results) > 0 {
+				bad = append(bad, "the return at "+a.ipos(ret)+" leaves the scan without a non-empty test of the queue it returns")
+			}
+			break
+		}
+	}
+	switch {
+	case n == 0:
+		a.R.Unknown(rule, key, a.fpos(dump), "no removal from the pool's map found in dumpUnlocked")
+	case len(bad) > 0:
+		a.R.Bad(rule, key, a.fpos(dump), strings.Join(bad, "; "))
+	default:
+		a.R.OK(rule, key, a.fpos(dump), fmt.Sprintf("%d removal site(s), each inside the scan loop; the scan is left early only with a non-empty queue", n))
+	}
+}
+
+// DrainRules runs the end-of-stream rules only (R1).
+func (a *A) DrainRules() { a.drainBeforeEnd() }
+
 // PSICompleteRules runs the rules about isPSIComplete only (R6, R9, R10).
 func (a *A) PSICompleteRules() {
 	a.exactFitComplete()
@@ -245,6 +316,7 @@ func (a *A) drainBeforeEnd() {
 	if nd == nil || dump == nil || pd == nil {
 		return
 	}
+	a.drainScansWholePool(dump)
 	var sentinel *ssa.Global
 	if m, ok := a.P.SSAPkg.Members["ErrNoMorePackets"].(*ssa.Global); ok {
 		sentinel = m
